@@ -396,12 +396,28 @@ fn main() {
     let mut rep = Report::new();
     // Three workloads. The obligations are met by the first two (a few hundred cases each); the wall-clock budget only
     // ends generation, so on a starved machine it is the bulk of the cheap mapping cases (`maps2`) that is cut short.
-    let n_maps = ctx.tier.pick(5_000, 50_000);
-    let n_jar = ctx.tier.pick(5_000, 60_000);
-    let n_maps2 = ctx.tier.pick(15_000, 250_000);
+    let n_maps = ctx.tier.pick(15_000, 50_000);
+    let n_jar = ctx.tier.pick(20_000, 200_000);
+    let n_maps2 = ctx.tier.pick(45_000, 600_000);
     run_cases(&ctx, &replay, &mut rep, "maps", n_maps, |rng, rep, _| maps_case(rng, rep, false));
     run_cases(&ctx, &replay, &mut rep, "jar", n_jar, |rng, rep, _| jar_case(rng, rep));
     run_cases(&ctx, &replay, &mut rep, "maps2", n_maps2, |rng, rep, _| maps_case(rng, rep, false));
+
+    // samples: the first two cases of each kind that produce one (re-executed on a scratch report, so that the evidence
+    // shows a jar case and a mapping case whatever the thread schedule was)
+    if replay.is_none() {
+        rep.samples.clear();
+        for wl in ["jar", "maps"] {
+            let mut got = 0;
+            for i in 0..300u64 {
+                let mut scratch = Report::new();
+                scratch.cur = (wl.to_string(), i);
+                let mut r = Rng::new(rng::case_seed(ctx.seed, &format!("{}/{}", ctx.prop, wl), i));
+                if wl == "jar" { jar_case(&mut r, &mut scratch) } else { maps_case(&mut r, &mut scratch, false) }
+                if let Some(mut s) = scratch.samples.into_iter().next() { s["workload"] = json!(wl); s["case"] = json!(i); rep.samples.push(s); got += 1; if got == 2 { break; } }
+            }
+        }
+    }
 
     let mut meta = Meta::new("exploration",
         "jar case = 3-8 generated classes that reference each other (generated bodies over a shared class pool + anchor methods) x a nests table of 1-6 rows plus rows for absent classes, fed as text, x a two-namespace mapping set over the same classes; \
